@@ -50,6 +50,10 @@ CHECKS = {
    tech="TLA+ state machine JtThreads at storage-access granularity (cells tagged with their last writer; Isolation invariant; shared-storage variant refuted by TLC); TLC enumerates all interleavings with a bounded number of preemptions of the access sequences recorded from the real workloads; each schedule replayed with real threads by a forced scheduler (sys.settrace yield points)",
    text="For 2 and 3 threads running decorated calls, context blocks, array checks with variadics, structured PyTree checks with '?' axes, failing checks with rollback and context-free checks, TLC enumerates the interleavings of their storage accesses (plus every call into the check code as a pure preemption point) with <=1..3 preemptions; each schedule is forced on real threads and every thread must produce exactly the verdicts and print_bindings transcripts of its solo run.",
    note="Yield points: calls into _storage.py and into _array_types.py/_pytree_type.py. Schedules are sampled down to 1200 per workload pair in the quick tier. Preemption-bounded, not all interleavings."),
+ "C12": dict(cat="model_checking", sec="5 C12",
+   tech="TLA+ state machine JtFlags (PyTree check at call-out granularity with the flatten / leaf-position flags, nesting, fault action at every call-out; Quiescent, LabelIsInnermostStructured, FlattenStaysOn; no-finally variant refuted by TLC); fault-injected operation histories on the real code followed by a probe battery whose expected verdicts TLC computes from the specification (Rows_JtArray / Rows_JtPyTree)",
+   text="19 operations (array checks with raising .shape/.dtype/__format__, PyTree checks with raising tree_flatten / leaf __instancecheck__ / unsortable dict keys, '?' leaves, nested PyTrees, decorated calls whose body / typechecker / __post_init__ raises, ill-typed calls, decoration sharing an annotation object, pickling, hook install/uninstall) are run with one fault (Exception or BaseException) at each call-out position 1..8, alone and in random histories of 2-3; after every history 11 probe checks (wrong dtype, wrong rank, non-array, '?' outside a PyTree, the shared annotation, checks in a fresh context, PyTree leaves) must give the verdict the specification computes for an empty context, top-level bindings must be empty, the stack empty and both flags reset.",
+   note="Known finding D9 (old-style generator decoration makes the shared annotation transparent) is listed in known_findings.json and reported as KNOWN-FINDING. Histories are attributed per worker process with fresh annotation objects per history."),
 }
 NOT_YET = {}
 
